@@ -399,10 +399,14 @@ def sym_groups(ctx):
                     return {"slice": slot("pk_" + x["k"]), "off": 4, "len": Pb}
                 return {"slice": slot("sig_%s_%d" % (x["k"], x["c"])), "off": 4 + (x["i"] - 2) * (S + Pb) + S, "len": Pb}
 
+            # accepted recombinations first: the VerifyingKey objects the harness keeps across calls have then verified
+            # genuine signatures before they see the near misses
+            terms = sorted(terms, key=lambda t: not t["accept"])
             chunk = 120
             for start in range(0, len(terms), chunk):
                 cmds = list(pre)
-                for t in terms[start:start + chunk]:
+                primed = [t for t in terms if t["accept"]] if start > 0 else []
+                for t in primed + terms[start:start + chunk]:
                     parts = ["%08x" % t["nspk"]]
                     for sp in t["spks"]:
                         parts += [sigc(sp["sig"]), treec(sp["pub"])]
@@ -588,8 +592,13 @@ def concretise_walk(name, walk, heights, wi, aux_mode="none"):
             elif a["tag"] == "live":
                 key = key_at("store_" + k, total + a["over"])
             else:
-                kind = det_int("%s/bad/%d" % (name, ai), 5)
-                if kind == 0:
+                kind = det_int("%s/bad/%d" % (name, ai), 6)
+                if kind == 5 and n == 32:
+                    # a list key generation refuses (signatures longer than 65535 bytes): 8 x (LmsH2, W1)
+                    key = {"mut": slot("store_" + k), "kind": "set", "off": 8, "with": "11" * 8}
+                elif kind == 5:
+                    key = {"mut": slot("store_" + k), "kind": "set", "off": 8, "with": "f0"}
+                elif kind == 0:
                     key = {"mut": slot("store_" + k), "kind": "set", "off": 8, "with": "0%x" % det_int("%s/b/%d" % (name, ai), 16)}
                 elif kind == 1:
                     key = {"mut": slot("store_" + k), "kind": "trunc", "len": det_int("%s/t/%d" % (name, ai), 16 + n)}
@@ -701,6 +710,9 @@ def api_phases(ctx, emphasis):
         groups.append(lifetime_walk("life/%s/h2h5-end" % alg, alg, [(ws[(ai + 2) % 4], 2), (4, 5)], cyc[ai % 4], start=128 - 20))
         groups.append(lifetime_walk("life/%s/h5h2-end" % alg, alg, [(4, 5), (ws[(ai + 1) % 4], 2)], cyc[(ai + 2) % 4], start=128 - 10,
                                     api="mem" if ai % 2 else "bytes"))
+        if not quick or ai == 0:
+            # a total height of 35 (seven H5 levels): the last three one-time keys of a 2^35 lifetime, then refusal
+            groups.append(lifetime_walk("life/%s/7xh5-end" % alg, alg, [(2, 5)] * 7, cyc[(ai + 1) % 4], start=(1 << 35) - 3))
         if not quick:
             groups.append(lifetime_walk("life/%s/h2x2x2" % alg, alg, [(4, 2), (ws[ai % 4], 2), (2, 2)], cyc[(ai + 2) % 4]))
             groups.append(lifetime_walk("life/%s/h5" % alg, alg, [(4, 5)], cyc[(ai + 3) % 4]))
@@ -772,6 +784,17 @@ def c11_phases(ctx):
             for plan in ("accept", "reject"):
                 cmds.append(cmd_sign(alg, key_at("sk", ctr), "0102", meta=meta, plan=plan))
             cmds.append(cmd_lifetime(alg, key=key_at("sk", ctr), meta=meta))
+        # a key blob that names a list key generation refuses (signatures longer than 65535 bytes: eight levels of W1):
+        # no callback, no signature, no crash - through every entry point
+        if n * 8 * (8 * n + 9 + 3) > 65535:
+            big = (bytes(8) + bytes([0x11] * 8) + det_bytes("c11/big/%s" % alg, n)).hex()       # 8 x (LmsH2, W1)
+            meta = {"class": "unrepresentable_list_blob"}
+            for plan in ("accept", "reject"):
+                cmds.append(cmd_sign(alg, big, "0708", meta=meta, plan=plan))
+            cmds.append(cmd_lifetime(alg, key=big, meta=meta))
+            cmds.append({"op": "load", "alg": alg, "mem": "mbig", "key": big, "meta": meta})
+            cmds.append(cmd_sign(alg, None, "0708", api="mem", mem="mbig", meta=meta))
+            cmds.append(cmd_lifetime(alg, mem="mbig", meta=meta))
         wiped = "00" * 8 + "ff" * 8 + "00" * n
         for plan in ("accept", "reject", "crash_before"):
             cmds.append(cmd_sign(alg, wiped, "03", meta={"class": "wiped"}, plan=plan))
@@ -815,6 +838,25 @@ def gen_digests(ctx, n, w, stride):
     return [json.loads(x) for x in open(outp)]
 
 
+def high_checksum_groups(ctx):
+    """END TO END through released signatures (not through the encoder accessor): a message whose LM-OTS digest has a
+    checksum >= 256 for n = 32, w = 2 - the only parameter set where the checksum needs its ninth bit AND such digests can
+    be found (about one message in four million; the harness searches, TLC judges the signature byte for byte)"""
+    groups = []
+    for alg in ("sha256_n32", "shake256_n32") if ctx["tier"] != "quick" else ("sha256_n32",):
+        n = 32
+        name = "c12/highcksum/%s" % alg
+        cmds = [cmd_keygen(alg, [(2, 2)], seed_hex(name, alg)),
+                # C is derived from the seed per leaf: any signature at the same counter shows it (bytes 12..12+n)
+                cmd_sign(alg, key_at("sk", 1), "00", out={"sig": "probe"}),
+                {"op": "find_msg", "alg": alg, "I": {"slice": slot("pk"), "off": 12, "len": 16}, "q": "00000001",
+                 "C": {"slice": slot("probe"), "off": 12, "len": n}, "w": 2, "min_cksum": 256, "out": {"msg": "hm"}},
+                cmd_sign(alg, key_at("sk", 1), slot("hm"), out={"sig": "hsig"}, meta={"class": "high_checksum_digest"}),
+                cmd_verify(alg, slot("hm"), slot("hsig"), slot("pk"), meta={"class": "high_checksum_digest"})]
+        groups.append({"name": name, "cmds": cmds, "cost": 12.0})
+    return groups
+
+
 def c12_phases(ctx):
     quick = ctx["tier"] == "quick"
     from vlib import WT
@@ -842,6 +884,7 @@ def c12_phases(ctx):
                 cmds += [{"op": "hook", "hook": "digits", "alg": alg, "type": WT[w], "digest": det_bytes("c12/%s/%d/%d" % (alg, w, i), n).hex(),
                           "meta": {"family": "random"}} for i in range(20 if s == 0 else 0)]
                 groups.append({"name": "c12/%s/w%d/%d" % (alg, w, s), "cmds": cmds, "cost": 0.3 + len(cmds) * 0.004 * (8 // w)})
+    groups += high_checksum_groups(ctx)
     ctx["digest_space"] = sizes
     return [{"tag": "c12", "groups": groups,
              "space": "parameter table for 6 hashes x 4 types; digests enumerated by GenDigests.tla: every byte position x byte value, every attainable checksum value, extremes, random"}]
@@ -1325,11 +1368,11 @@ def c15_groups(vi, quick, reps):
                 cmds = [cmd_keygen(alg, params, seed_hex(name, alg))]
                 total = lifetime_of(params)
                 ctr = 0
-                for ln in [n + 1, n + 2, 100, 4096][:(4 if not quick else 3)]:
+                for li, ln in enumerate([n + 1, n + 2, 100, 4096][:(4 if not quick else 3)]):
                     for r in range(reps):
                         body = msg_hex("%s/%d/%d" % (name, ln, r), ln - n)
                         m = {"cat": [body, {"rep": n, "byte": 0}]}
-                        plan = "accept" if r % 3 != 2 else "reject"
+                        plan = "accept" if (r + li) % 3 != 2 else "reject"      # a rejecting callback at every length, also with two repetitions
                         cmds.append(cmd_sign_mut(alg, key_at("sk", ctr % total), m, plan=plan, out={"sig": "sig", "msg_out": "mo"},
                                                  meta={"class": "zero_trailer", "len": ln}))
                         cmds.append(cmd_verify(alg, slot("mo"), slot("sig"), slot("pk")))
@@ -1391,6 +1434,8 @@ def c16_phases(ctx):
         groups.append(lifetime_walk("c16/%s/exhaust" % alg, alg, [([1, 2, 4, 8][ai % 4], 2)], cyc[ai % 3]))
         if not quick:
             groups.append(lifetime_walk("c16/%s/exhaust2" % alg, alg, [(4, 2), ([1, 2, 4, 8][(ai + 1) % 4], 2)], cyc[(ai + 1) % 3]))
+    # the wipe decision at the LAST leaf for shapes no walk can exhaust (total heights up to 200): arithmetic accessor
+    groups += arith_groups(ctx, True)[:(10 if quick else None)]
     return [{"tag": "c16", "groups": groups, "trace_module": "TraceApi", "trace_cfg": "TraceApi.cfg",
              "space": "5 secret-bearing types x {zeroize, drop in place} x sentinel bytes x 6 hashes; exhaustion histories (wiped key bytes)"}]
 
@@ -1445,6 +1490,13 @@ def c09_parallel_groups(ctx):
             inner.append(cmd_verify(alg, m, slot("s"), slot("pk")))
             inner.append(cmd_sign(alg, key_at("osk", c % 4), m, plan="reject" if i % 3 == 2 else "accept"))
         inner.append(cmd_keygen(alg, params, seed_hex(name, alg), out={"sk": "sk2", "pk": "pk2"}))
+        # Seed values that differ only in the bytes BEHIND the seed (a 32-byte array for a shorter hash): same key pair
+        for t in range(2):
+            kg = cmd_keygen(alg, params, seed_hex(name, alg), out={"sk": "sk3", "pk": "pk3"})
+            kg["seed_tail"] = {"rand": 32, "tag": "%s/tail/%d" % (name, t)}
+            inner.append(kg)
+            inner.append(cmd_sign(alg, key_at("sk3", 5), "7a11", out={"sig": "s3"}))
+            inner.append(cmd_verify(alg, "7a11", slot("s3"), slot("pk3")))
         inner.append({"op": "load", "alg": alg, "mem": "m", "key": key_at("sk", 2)})
         inner.append(cmd_sign(alg, None, "c0ffee", api="mem", mem="m"))
         inner.append(cmd_sign(alg, None, "c0ffee", api="mem", mem="m"))
@@ -1454,6 +1506,21 @@ def c09_parallel_groups(ctx):
         cmds.append({"op": "subprocess", "cmds": inner})
         cmds += inner                                        # and again afterwards
         groups.append({"name": name, "cmds": cmds, "cost": 2 + 0.02 * len(inner) * 20})
+    return groups
+
+
+def aux_script_groups(ctx, prefix, sids, mem_a):
+    """the scripted buffer histories of HssAux.tla (GenAuxWalks_scripts.cfg) for another property's phase"""
+    rc, out, st = run_tlc("GenAuxWalks", "GenAuxWalks_scripts.cfg", os.path.join(ctx["workdir"], "meta-auxscripts-" + prefix.replace("/", "_")), workers=4, xmx="4g", timeout=900)
+    scripted = tlc_printed(out, "WALK")
+    if "Error:" in out or not scripted:
+        raise ToolError("GenAuxWalks_scripts failed: " + out[-1500:])
+    groups = []
+    for si, w in enumerate(scripted):
+        if w["sid"] not in sids:
+            continue
+        alg = ALGS[si % 6]
+        groups.append(concretise_aux_walk("%s/%d/%d" % (prefix, w["sid"], si), w["steps"], alg, [(4, 5)] if si % 2 else [(2, 5), (4, 2)], si, mem_a=mem_a))
     return groups
 
 
@@ -1498,6 +1565,16 @@ def c05_design(ctx):
 
 REGISTRY["C05"]["phases"] = c05_phases
 REGISTRY["C05"]["design"] = c05_design
+
+
+def c03_phases(ctx):
+    ph = api_phases(ctx, "c03")
+    ph[0]["groups"] += arith_groups(ctx, True)[:(12 if ctx["tier"] == "quick" else None)]
+    ph[0]["space"] += "; counter successor / last-leaf arithmetic for tall shapes through the accessor"
+    return ph
+
+
+REGISTRY["C03"]["phases"] = c03_phases
 
 
 # ---- the repository's command line example (lms-demo): file conventions, validated by the same judges ------
@@ -1559,6 +1636,19 @@ def _with_repo_tests(prop, always):
     REGISTRY[prop]["coverage_extra"] = (lambda ctx, cov: dict((prev(ctx, cov) if prev else {}) or {}, repo_test_suite_recorded=ctx.get("repo_tests")))
 
 
+def _c07_with_aux_histories():
+    inner = REGISTRY["C07"]["phases"]
+
+    def phases(ctx):
+        ph = inner(ctx)
+        ph[0]["groups"] += aux_script_groups(ctx, "c07/auxhist", (1, 3, 4, 5), False)
+        ph[0]["groups"] += high_checksum_groups(ctx)
+        ph[0]["space"] += "; signatures made while an aux buffer goes through the scripted histories of HssAux.tla"
+        return ph
+    REGISTRY["C07"]["phases"] = phases
+
+
+_c07_with_aux_histories()
 _with_repo_tests("C07", True)      # byte-exact signatures: every signature the suite produces
 _with_repo_tests("C08", False)
 _with_repo_tests("C01", False)
